@@ -17,7 +17,7 @@ RULE = ("Finite grid, fully enumerated in both tiers: reference position (instru
         "file whose macro refers to a macro the rule must supply (supplying rule -> clean, non-supplying rule -> reported, in every order). Non-trivial = every grid cell; distinct = (cell, variant).")
 FLOOR = {"quick": 400, "thorough": 5000}
 ANCHOR_HINTS = ["macro_expander", "yaml2regex"]
-REQUIRED_EVENTS = ["cells_judged", "history_steps_judged"]
+REQUIRED_EVENTS = ["cells_judged", "history_steps_judged", "many_undefined_cases"]
 SHARDS = {"quick": 8, "thorough": 16}
 
 POSITIONS = ["item", "operand", "deref_value", "key_times", "key_operands", "body_item", "body_operand", "or_item",
@@ -182,9 +182,40 @@ def history_stratum(ctx, ws, n):
                 break
 
 
+def many_undefined_stratum(ctx, ws, n):
+    """Many undefined names at once (a rule written against a macro library that was not given): the error names every one of them,
+    through Yaml2Regex and through MasterOfPuppets, however long the message gets."""
+    rng = ctx.rng
+    for _ in range(n):
+        k = rng.choice([2, 5, 14, 30])
+        names = ["@" + rng.choice(["load_const_", "zero_", "save_scratch_register_", "m", "prologue_for_leaf_functions_", "x"]) + str(i) + rng.choice(["", "_long" * rng.randint(1, 6)])
+                 for i in range(k)]
+        pattern = []
+        for nm in names:
+            pattern.append(rng.choice([nm, {"mov": ["%rax", nm]}, {"$or": ["nop", nm]}, {nm: {"times": 2}}]))
+        doc = {"macros": [{"name": "@defined", "pattern": "ret"}], "pattern": pattern + ["@defined"]}
+        rp = ws.write("many.yaml", real.dump_rule(doc))
+        lp = ws.write("many.s", "  401000:\tc3                   \tret\n")
+        r = real.compile_rule(rp, None, full_message=True)
+        be = real.build_error(rp, lp)
+        ctx.ran(2)
+        ctx.event("many_undefined_cases")
+        ctx.case(("many", tuple(names)), True, stratum=f"many undefined/{k}", outcome=r[0])
+        case = {"rule": real.dump_rule(doc), "many": names, "cell": ["many"], "expect": "raise_naming_all", "ref": names[0], "extra_macro_file": None}
+        for route, msg in (("Yaml2Regex", r[2] if r[0] == "exc" else None), ("MasterOfPuppets", be[1] if be else None)):
+            if msg is None:
+                ctx.disagreement(case, f"{k} undefined macro names and {route} raised nothing")
+                break
+            missing = [nm for nm in names if nm not in msg]
+            if missing:
+                ctx.disagreement(case, f"{k} undefined macro names: the error seen through {route} ({len(msg)} characters) does not name {missing[:4]} ({len(missing)} missing)")
+                break
+
+
 def run_shard(ctx):
     ws = real.Workspace()
     history_stratum(ctx, ws, ctx.share(64, 2000))
+    many_undefined_stratum(ctx, ws, ctx.share(32, 1500))
     cells = list(itertools.product(POSITIONS, DEFINED, ORDER, WHERE, OTHERS))
     variants = 2 if ctx.tier == "quick" else 40
     jobs = [(c, v) for c in cells for v in range(variants)]
@@ -195,6 +226,17 @@ def run_shard(ctx):
 
 def replay(ctx, case):
     ws = real.Workspace()
+    if case.get("many"):
+        rp = ws.write("many.yaml", case["rule"])
+        lp = ws.write("many.s", "  401000:\tc3                   \tret\n")
+        r = real.compile_rule(rp, None, full_message=True)
+        be = real.build_error(rp, lp)
+        ctx.ran(2)
+        for msg in (r[2] if r[0] == "exc" else None, be[1] if be else None):
+            if msg is None or any(nm not in msg for nm in case["many"]):
+                ctx.disagreement(case, "the error does not name every undefined macro")
+                return
+        return
     if case.get("history"):
         lib = ws.write("lib.yaml", case["extra_macro_file"])
         r = None
